@@ -508,6 +508,30 @@ func Structures() []Entry {
 		})
 	}
 
+	// ... and with a SHORT companion block: offsets of the file under test lie inside its byte range near the top
+	// of the file and outside further down, so text inserted above an item moves cursors across that boundary
+	{
+		var mk func() *schema.BodySchema
+		for _, e := range out {
+			if e.ID == "S:ext-twofiles" {
+				mk = e.Mk
+			}
+		}
+		out = append(out, Entry{ID: "S:ext-twofiles-short", Mk: mk, Family: "struct", Hooks: -1,
+			Seeds: []string{
+				// the cursor after "b.other." is the last byte inside the companion block's byte range
+				"b \"n\" {\n  ya = 12345678901234\n  xa = b.other.\n}\n",
+				"b \"n\" {\n  ya = 12345678901\n  xa = b.other.xa\n}\n",
+				// count.index (declared only in the companion) starting on the last byte of the companion block's range
+				"b \"n\" {\n  xa = \"12345678901234567890\"\n  ya = count.index\n}\n",
+				"b \"n\" {\n  ya = 1\n  xa = \n}\n",
+				"b \"n\" {\n  xa = b.other.\n}\nb \"m\" {\n  xa = \n  ya = \n}\n",
+				"b \"n\" {\n  ya = count.index\n  xa = each.key\n}\n",
+			},
+			Companion: []world.FileSpec{{Name: "zz.tf", Text: "b \"other\" {\n  count = 1\n  xa = \"vv\"\n  ya = 2\n}\n"}},
+		})
+	}
+
 	// --- block addresses -------------------------------------------------------------------------
 	add("addr-forms", func() *schema.BodySchema {
 		body := func() *schema.BodySchema {
@@ -518,6 +542,7 @@ func Structures() []Entry {
 					"default": {Constraint: schema.AnyExpression{OfType: cty.DynamicPseudoType}, IsOptional: true},
 					"alias":   {Constraint: schema.LiteralType{Type: cty.String}, IsOptional: true},
 				},
+				Blocks: map[string]*schema.BlockSchema{"validation": {Body: &schema.BodySchema{Attributes: map[string]*schema.AttributeSchema{"msg": {Constraint: schema.LiteralType{Type: cty.String}, IsOptional: true}}}}},
 			}
 		}
 		return &schema.BodySchema{Blocks: map[string]*schema.BlockSchema{
@@ -557,6 +582,8 @@ func Structures() []Entry {
 		"strict \"s\" {\n  alias = \"al\"\n}\nstrict \"t\" {\n}\nstrict \"u\" {\n  alias = true ? null : \"a\"\n}\nprovider \"r\" {\n  alias = 42\n}\ntypeof_missing {\n  nosuch = string\n}\n",
 		"data \"d\" {\n  s = \"x\"\n  l = [\"a\", \"b\"]\n  o = { foo = \"f\", bar = true }\n  m = { k = 1 }\n  lb {\n    v = \"1\"\n  }\n  lb {\n    v = \"2\"\n  }\n  sb {\n  }\n  mb \"k1\" {\n    v = self.s\n  }\n  ob {\n  }\n}\n",
 		"variable \"a\" {\n  type = \n}\nvariable {\n}\n",
+		// a typed declaration that also holds a nested block
+		"variable \"x\" {\n  type = string\n  validation {\n    msg = \"m\"\n  }\n}\nvariable \"y\" {\n  validation {\n  }\n  type = map(number)\n}\n",
 	)
 
 	// --- TargetableAs on a block body and on the ROOT body; implied origins; targets --------------
@@ -626,16 +653,23 @@ func Structures() []Entry {
 					"inner": {SemanticTokenModifiers: lang.SemanticTokenModifiers{"mi"},
 						Labels: []*schema.LabelSchema{{Name: "type", SemanticTokenModifiers: lang.SemanticTokenModifiers{"ml-type"}}, {Name: "name", SemanticTokenModifiers: lang.SemanticTokenModifiers{"ml-name"}}, {Name: "third"}},
 						Body: &schema.BodySchema{
-							Attributes: map[string]*schema.AttributeSchema{"ia": {Constraint: schema.LiteralType{Type: cty.Number}, IsOptional: true, SemanticTokenModifiers: lang.SemanticTokenModifiers{"mia"}}},
+							Attributes: map[string]*schema.AttributeSchema{"ia": {Constraint: schema.LiteralType{Type: cty.Number}, IsOptional: true, SemanticTokenModifiers: lang.SemanticTokenModifiers{"mia"}},
+								// several attributes of one body with different modifiers (under a modifier chain with spare capacity)
+								"ib": {Constraint: schema.LiteralType{Type: cty.Number}, IsOptional: true, SemanticTokenModifiers: lang.SemanticTokenModifiers{"mib"}},
+								"ic": {Constraint: schema.LiteralType{Type: cty.Number}, IsOptional: true, SemanticTokenModifiers: lang.SemanticTokenModifiers{"mic1", "mic2"}},
+								"id": {Constraint: schema.LiteralType{Type: cty.Number}, IsOptional: true}},
 							Blocks: map[string]*schema.BlockSchema{"leaf": {SemanticTokenModifiers: lang.SemanticTokenModifiers{"mleaf1", "mleaf2", "mleaf3"},
 								Labels: []*schema.LabelSchema{{Name: "a", SemanticTokenModifiers: lang.SemanticTokenModifiers{"mla"}}, {Name: "b", SemanticTokenModifiers: lang.SemanticTokenModifiers{"mlb"}}},
-								Body:   &schema.BodySchema{Attributes: map[string]*schema.AttributeSchema{"la": {Constraint: schema.LiteralType{Type: cty.Bool}, IsOptional: true}}}}},
+								Body: &schema.BodySchema{Attributes: map[string]*schema.AttributeSchema{"la": {Constraint: schema.LiteralType{Type: cty.Bool}, IsOptional: true},
+									"lb": {Constraint: schema.LiteralType{Type: cty.Bool}, IsOptional: true, SemanticTokenModifiers: lang.SemanticTokenModifiers{"mlb1"}},
+									"lc": {Constraint: schema.LiteralType{Type: cty.Bool}, IsOptional: true, SemanticTokenModifiers: lang.SemanticTokenModifiers{"mlc1"}}}}}},
 						}},
 				},
 			}},
 		}}
 	},
 		"outer {\n  oa = \"x\"\n  inner \"aaa\" \"bbb\" \"ccc\" {\n    ia = 1\n    leaf \"p\" \"q\" {\n      la = true\n    }\n    leaf \"r\" \"s\" {\n    }\n  }\n  inner \"ddd\" \"eee\" \"fff\" {\n  }\n}\n",
+		"outer {\n  inner \"a\" \"b\" \"c\" {\n    ia = 1\n    ib = 2\n    ic = 3\n    id = 4\n    leaf \"p\" \"q\" {\n      la = true\n      lb = false\n      lc = true\n    }\n  }\n}\n",
 	)
 
 	// --- dependent body whose nested block has extensions of its own, under DynamicBlocks
